@@ -52,7 +52,11 @@ func VF_C06_Fork(nc, fan int) {
 	for k, o := range outs {
 		vf.Go(reader(o, k, n))
 	}
-	vf.Go(func() { wg.Wait(); vf.Put("helpers.done", 1) })
+	vf.Go(func() {
+		wg.Wait()
+		vf.Assert("helper-goroutines-finished-when-the-wait-group-returns-to-zero", vf.HelpersDone())
+		vf.Put("helpers.done", 1)
+	})
 	vf.TraceStart()
 	vf.WaitAll()
 	for k := range outs {
@@ -82,7 +86,11 @@ func VF_C06_Split(nc, fan int) {
 	for k, o := range outs {
 		vf.Go(reader(o, k, n))
 	}
-	vf.Go(func() { wg.Wait(); vf.Put("helpers.done", 1) })
+	vf.Go(func() {
+		wg.Wait()
+		vf.Assert("helper-goroutines-finished-when-the-wait-group-returns-to-zero", vf.HelpersDone())
+		vf.Put("helpers.done", 1)
+	})
 	vf.TraceStart()
 	vf.WaitAll()
 	for k := range outs {
@@ -117,7 +125,11 @@ func VF_C06_SplitJoin(nc, fan int) {
 	vf.Share(out)
 	vf.Go(feeder(in, n))
 	vf.Go(reader(out, 0, n))
-	vf.Go(func() { wg.Wait(); vf.Put("helpers.done", 1) })
+	vf.Go(func() {
+		wg.Wait()
+		vf.Assert("helper-goroutines-finished-when-the-wait-group-returns-to-zero", vf.HelpersDone())
+		vf.Put("helpers.done", 1)
+	})
 	vf.TraceStart()
 	vf.WaitAll()
 	vf.Assert("output-closed-after-input-drained", vf.Get("closed.0") == 1)
@@ -155,6 +167,7 @@ func VF_C06_WaitGroup(nc, kind int) {
 	vf.Go(feeder(in, n))
 	vf.Go(func() {
 		wg.Wait()
+		vf.Assert("helper-goroutines-finished-when-the-wait-group-returns-to-zero", vf.HelpersDone())
 		total := 0
 		for _, o := range outs {
 			total += o.GetSize()
@@ -191,5 +204,104 @@ func VF_C06_WaitGroup(nc, kind int) {
 	})
 	vf.TraceStart()
 	vf.WaitAll()
+	vf.Reach("end")
+}
+
+// ---- element types (symbolic execution with the cooperative scheduler, not the BMC) ----
+//
+// The BMC programs carry small integers.  Fork / Split / Join are generic: this harness pushes streams
+// of other element types - with values a helper might mistake for "no value" (empty string, nil
+// pointer, nil or empty slice, nil interface, zero) - through Fork, Split and Split+Join and compares what
+// comes out.  Which value is the special one at each position is a symbolic choice.
+
+func c06stream[T any](n int, special []T, ordinary func(i int) T) []T {
+	xs := make([]T, n)
+	for i := range xs {
+		k := vf.Choice("special"+itoa(i), len(special)+1)
+		if k < len(special) {
+			xs[i] = special[k]
+		} else {
+			xs[i] = ordinary(i)
+		}
+	}
+	return xs
+}
+
+func c06run[T any](xs []T, what, fan int, same func(a, b T) bool) {
+	cls := col.Queue[T](nil)
+	in := cls.MakeWithCapacity(uint(len(xs) + 1))
+	for _, x := range xs {
+		in.AddValue(x)
+	}
+	in.CloseQueue()
+	var wg sync.WaitGroup
+	drain := func(q col.QueueLike[T]) []T {
+		var got []T
+		for i := 0; i <= len(xs)+1; i++ {
+			v, ok := q.RemoveHead()
+			if !ok {
+				return got
+			}
+			got = append(got, v)
+		}
+		vf.Assert("output-closed-after-input-drained", false)
+		return got
+	}
+	eq := func(got, want []T) bool {
+		if len(got) != len(want) {
+			return false
+		}
+		for i := range got {
+			if !same(got[i], want[i]) {
+				return false
+			}
+		}
+		return true
+	}
+	switch what {
+	case 0: // Fork
+		outs := cls.Fork(&wg, in, uint(fan)).AsArray()
+		for _, o := range outs {
+			vf.Assert("fork-output-is-the-input-sequence", eq(drain(o), xs))
+		}
+	case 1: // Split
+		outs := cls.Split(&wg, in, uint(fan)).AsArray()
+		for k, o := range outs {
+			var want []T
+			for i := k; i < len(xs); i += fan {
+				want = append(want, xs[i])
+			}
+			vf.Assert("split-round-robin-share", eq(drain(o), want))
+		}
+	case 2: // Split then Join
+		out := cls.Join(&wg, cls.Split(&wg, in, uint(fan)))
+		vf.Assert("split-join-is-the-input-sequence", eq(drain(out), xs))
+	}
+	wg.Wait()
+	vf.Assert("helpers-finished", vf.Quiesce() == 0)
+}
+
+// VF_C06_ElementTypes: n = stream length; sel = elemType*6 + what*2 + (fan-2); elemType 0 string, 1 *int, 2 []byte, 3 any.
+func VF_C06_ElementTypes(n, sel int) {
+	et, what, fan := sel/6, (sel%6)/2, sel%2+2
+	vf.Budget(40000000)
+	switch et {
+	case 0:
+		xs := c06stream(n, []string{""}, func(i int) string { return "v" + itoa(i) })
+		c06run(xs, what, fan, func(a, b string) bool { return a == b })
+	case 1:
+		cells := make([]int, n)
+		xs := c06stream(n, []*int{nil}, func(i int) *int { return &cells[i] })
+		c06run(xs, what, fan, func(a, b *int) bool { return a == b })
+	case 2:
+		xs := c06stream(n, [][]byte{nil, {}}, func(i int) []byte { return []byte{byte(i)} })
+		c06run(xs, what, fan, func(a, b []byte) bool {
+			return (a == nil) == (b == nil) && len(a) == len(b) && (len(a) == 0 || a[0] == b[0])
+		})
+	case 3:
+		xs := c06stream(n, []any{nil, 0, ""}, func(i int) any { return i + 1 })
+		c06run(xs, what, fan, func(a, b any) bool { return a == b })
+	}
+	vf.BudgetReset()
 	vf.Reach("end")
 }
